@@ -3,6 +3,7 @@ package main
 
 import (
 	"verif/dsim/harness"
+	"verif/dsim/plat"
 	"verif/dsim/props/c09"
 	"verif/dsim/props/c10"
 	"verif/dsim/props/c15"
@@ -17,6 +18,7 @@ func main() {
 	reg := map[string]harness.Harness{
 		"C09": c09.H{},
 		"C10": c10.H{},
+		"C12": harness.External{Property: "C12", Ver: "c12-v4", M: plat.C12Meta(), Quick: 1200, Thor: 60000, Bin: "plat.test", TestName: "TestJob", Classify: plat.ClassifyExit},
 		"C15": c15.H{},
 		"C16": c16.H{},
 		"C17": c17.H{},
